@@ -12,9 +12,11 @@ TRUSTED = ["QDir::cleanPath/absoluteFilePath/relativeFilePath and the kernel pat
 
 TREE = [[b"SECRET", 0, b"top-secret"], [b"p/SECRET2", 0, b"s2"], [b"p/q/root/a.txt", 0, b"0123456789"], [b"p/q/root/sub/b.txt", 0, b"bb"],
         [b"p/q/root/sub/deep/c", 0, b"c"], [b"p/q/root/empty", 1, b""], [b"p/q/root/.hidden", 0, b"h"],
-        [b"p/q/root2/x", 0, b"x"], [b"p/q/rootX/y", 0, b"y"], [b"p/q/roo", 0, b"r"]]
+        [b"p/q/root2/x", 0, b"x"], [b"p/q/rootX/y", 0, b"y"], [b"p/q/roo", 0, b"r"],
+        # inside entries whose names merely START with two dots: they are not climbs and must stay reachable
+        [b"p/q/root/..hidden", 0, b"hh"], [b"p/q/root/..data/config", 0, b"cfg"], [b"p/q/root/.../deep", 0, b"d3"], [b"p/q/root/sub/..x", 0, b"sx"]]
 ROOTS = [b"@BASE@/p/q/root", b"@BASE@/p/q/root/", b"@BASE@/p/./q/root2/../root", b"@CWD@/p/q/root"]
-SEGS = [b"a.txt", b"sub", b"deep", b"b.txt", b".", b"..", b"", b"%2e%2e", b"%2e", b"root", b"root2", b"rootX", b"q", b"SECRET", b"x", b"nosuch", b"..%2f..", b"%2E%2E"]
+SEGS = [b"a.txt", b"sub", b"deep", b"b.txt", b".", b"..", b"", b"%2e%2e", b"%2e", b"root", b"root2", b"rootX", b"q", b"SECRET", b"x", b"nosuch", b"..%2f..", b"%2E%2E", b"..hidden", b"..data", b"...", b"config", b"..x"]
 ABS = [b"@BASE@/p/q/root/", b"@BASE@/p/q/", b"@BASE@/", b"@BASE@/p/q/root2/", b"@BASE@/p/q/rootX/", b"/hx-nonexistent/", b"@BASE@/p/q/root/../"]
 # absolute only after the handler's own decoding: the leading slash is percent-encoded
 ABS += [b"%2F" + a for a in ABS[:5]] + [b"%2f@BASE@/p/", b"%2F%2F@BASE@/", b"%2F@BASE@%2Fp%2F"]
